@@ -246,7 +246,10 @@ static inline double cmb_random_lognormal(const double m, const double s)
 static inline double cmb_random_logistic(const double m, const double s)
 {
     cmb_assert_release(s > 0.0);
-    const double x = cmb_random();
+
+    /* Uniform on the open interval (0, 1), a zero draw would give log(0) */
+    double x;
+    while ((x = cmb_random()) == 0.0) {}
 
     return m + s * log(x / (1.0 - x));
 }
